@@ -33,7 +33,7 @@ F_POP0 = "exclude-pops-first-range"
 
 
 def plan(tier):
-    return {"ncases": 1600 if tier == "quick" else 24000, "budget_s": 50 if tier == "quick" else 700}
+    return {"ncases": 3200 if tier == "quick" else 100000, "budget_s": 55 if tier == "quick" else 800}
 
 
 # ---------------------------------------------------------------- generator
@@ -94,63 +94,10 @@ def gen_case(rng, tier, idx):
           "options": {}, "variants": [{"cps": cps, "crosses": []}]}
     if rng.random() < 0.15:
         cg["options"]["auto_bin_max"] = rng.choice([2, 4, 10, 64])
-    return {"cg": cg, "hseed": rng.getrandbits(32), "nrand": rng.choice([30, 60, 100])}
+    return {"cg": cg, "hseed": rng.getrandbits(32), "nrand": rng.choice([30, 60, 100] if tier == "quick" else [60, 150, 400])}
 
 
-# ------------------------------------------------------- finding predicates
-def _compact(items):
-    rl = sorted(([covref.item_values(i)[0], covref.item_values(i)[-1]] for i in items), key=lambda e: e[0])
-    out = []
-    for r in rl:
-        if out and out[-1][1] >= r[0]:
-            out[-1][1] = max(out[-1][1], r[1])
-        else:
-            out.append(list(r))
-    return out
-
-
-def pop0_early(decl_ranges, excl_ranges):
-    """Mechanism predicate of finding 'exclude-pops-first-range' (DESIGN #22):
-    while the excluded ranges (ascending) are applied to the FIRST range of a
-    declaration, one of them - not the last one - covers all that is left of it.
-    The library then continues that pass with list index -1."""
-    if not decl_ranges or not excl_ranges:
-        return False
-    lo, hi = decl_ranges[0]
-    for k, (xl, xh) in enumerate(excl_ranges):
-        if xl <= lo and hi <= xh:
-            return k < len(excl_ranges) - 1
-        if xl > lo and xh < hi:
-            hi = xl - 1
-        elif lo < xl <= hi:
-            hi = xl - 1
-        elif lo <= xh < hi:
-            lo = xh + 1
-    return False
-
-
-def pop0_decls(rcp):
-    """names of the declarations of a reference coverpoint that satisfy pop0_early"""
-    cp = rcp.spec
-    ex_items = []
-    for _, b in (cp.get("ignore") or []) + (cp.get("illegal") or []):
-        ex_items.extend(b["items"])
-    ex = _compact(ex_items)
-    if not ex:
-        return []
-    out = []
-    if not cp.get("bins"):
-        if rcp.fdesc["t"] == "enum":
-            dr = [[v, v] for v in rcp.tvalues]
-        else:
-            dr = [[rcp.tvalues[0], rcp.tvalues[-1]]]
-        if pop0_early(dr, ex):
-            out.append(None)
-    else:
-        for n, b in cp["bins"]:
-            if b["k"] in ("bin", "array") and pop0_early(_compact(b["items"]), ex):
-                out.append(n)
-    return out
+pop0_decls = cb.pop0_decls
 
 
 # ------------------------------------------------------------------ executor
